@@ -159,6 +159,7 @@ class Ctx:
         self.case = None               # current contract case label
         self.cover = {}                # cover name -> reached?
         self.loop_vars = []            # indices of the enclosing symbolic loops
+        self.undischarged = 0
         self._init_axioms()
 
     # -- symbols ---------------------------------------------------------------
@@ -379,7 +380,12 @@ class Ctx:
                     status, detail, backend = ("unsat", "path infeasible", "z3-api") if r == z3.unsat else \
                         ("sat", "structural clause is false on a path not shown infeasible", "structural")
                 else:
-                    status, detail, backend = discharge(self.axioms + self.assumptions, goal, self.timeout_ms, name)
+                    # once several obligations of this contract are open, the tree is broken (or the contract is):
+                    # do not spend the full three-back-end budget on every further one
+                    budget = self.timeout_ms if self.undischarged < 6 else 0
+                    status, detail, backend = discharge(self.axioms + self.assumptions, goal, budget, name)
+                    if status != "unsat":
+                        self.undischarged += 1
                 ob.time = time.time() - t0
                 self.solver_time += ob.time
                 ob.status, ob.detail, ob.backend = status, detail, backend
@@ -409,7 +415,7 @@ def discharge(assumptions, goal, timeout_ms, name="ob"):
     import subprocess
     import tempfile
     s = z3.SimpleSolver()
-    quick = min(2000, int(timeout_ms))
+    quick = min(2000, int(timeout_ms)) if timeout_ms > 0 else 2000
     s.set("timeout", quick)
     s.set("smt.mbqi", False)
     s.add(*assumptions)
@@ -422,6 +428,8 @@ def discharge(assumptions, goal, timeout_ms, name="ob"):
             return "sat", model_summary(s.model()), "z3-api"
         except Exception as e:     # pragma: no cover
             return "sat", f"(model unavailable: {e})", "z3-api"
+    if timeout_ms <= 0:
+        return "unknown", "in-process attempt only (budget for this contract used up): " + s.reason_unknown(), "z3-api"
     text = s.to_smt2()
     dump = os.environ.get("PYVC_DUMP")
     d = dump or tempfile.mkdtemp(prefix="pyvc")
@@ -644,8 +652,8 @@ class Enum:
         [A, A+B), then total = enumeration(A, g_left) followed by A + enumeration(B, g_right).
         Applied only when both agreements are proved under the current assumptions."""
         kf = z3.Int(ctx.fresh_name("k!spl"))
-        ok1 = ctx.valid(z3.Implies(in_range(kf, A), zbool(total.g(kf)) == zbool(g_left(kf))), 1500)
-        ok2 = ctx.valid(z3.Implies(in_range(kf, B), zbool(total.g(zint(A) + kf)) == zbool(g_right(kf))), 1500)
+        ok1 = ctx.valid(z3.Implies(in_range(kf, A), zbool(total.g(kf)) == zbool(g_left(kf))), 4000)
+        ok2 = ctx.valid(z3.Implies(in_range(kf, B), zbool(total.g(zint(A) + kf)) == zbool(g_right(kf))), 4000)
         if not (ok1 and ok2):
             return None
         left = Enum.of(ctx, A, g_left)
@@ -682,7 +690,7 @@ class Enum:
                 continue
             same = z3.And(zint(e1.n) == zint(e.n),
                           z3.Implies(in_range(kf, e.n), zbool(e1.g(kf)) == zbool(e.g(kf))))
-            if ctx.valid(same, 1500):
+            if ctx.valid(same, 4000):
                 j, i = z3.Ints("j!ax i!ax")
                 ctx.assumptions.append(e1.cnt == e.cnt)
                 ctx.assumptions.append(z3.ForAll([j], e1.idx(j) == e.idx(j), patterns=[e1.idx(j)]))
@@ -693,7 +701,7 @@ class Enum:
                 continue
             compl = z3.And(zint(e1.n) == zint(e.n),
                            z3.Implies(in_range(kf, e.n), zbool(e1.g(kf)) == z3.Not(zbool(e.g(kf)))))
-            if ctx.valid(compl, 1500):
+            if ctx.valid(compl, 4000):
                 # complementary predicates: the two enumerations partition the range (counting, by induction on i)
                 i = z3.Int("i!ax")
                 nn = zint(e.n)
